@@ -18,6 +18,8 @@ class Ctx:
         self.tier = tier
         self.r = report
         self.prog = Program()
+        from . import tabulate as _tab
+        _tab.CURRENT_PROG = self.prog
         self._types = None
         self._cg = None
 
